@@ -136,11 +136,13 @@ SETATTR_FLAG = REG.add(Contract(
 
 REG.add(Contract(
     "las_items.SectionItems.__init__", params={"self": LI.SI},
-    ensures=lambda c: [("empty", z3.Select(c.h("$len"), c.a["self"].t) == 0),
+    ensures=lambda c: [("the-list-part-is-what-list.__init__-made-of-the-argument (empty without one)", z3.And(
+                           z3.Select(c.h("$len"), c.a["self"].t) == z3.Select(c.old("$len"), c.a["self"].t),
+                           z3.Select(c.h("$items"), c.a["self"].t) == z3.Select(c.old("$items"), c.a["self"].t))),
                        ("case-sensitive-by-default", z3.Not(z3.Select(c.h("mnemonic_transforms"), c.a["self"].t)))],
     modifies={"mnemonic_transforms": LI.only_self}, assumed=True, noraise=True,
-    note="SectionItems() with no arguments: list.__init__ gives an empty list, then mnemonic_transforms = False "
-         "(the body uses *args/**kwargs, outside the subset)",
+    note="SectionItems(items?): list.__init__ (modelled by the engine's constructor: the literal list argument, or empty) then "
+         "mnemonic_transforms = False (the body uses *args/**kwargs, outside the subset)",
     properties=("C05", "C19")))
 
 
